@@ -138,7 +138,8 @@ pub fn covers(content: &str, json: &Value) -> Result<(), String> {
                 }
             }
             Value::Number(n) => {
-              let want = canon_num(&n.to_string());
+              // the sign of a negative rate is written as a letter (37H "N"), so numbers are matched by magnitude
+              let want = canon_num(n.to_string().trim_start_matches('-'));
               let mut done = false;
               // three passes: tokens spelled without leading zeros first (so that an amount is not
               // matched to digits of a date such as "0727"), then any token, then suffixes of tokens
@@ -208,11 +209,25 @@ pub fn covers(content: &str, json: &Value) -> Result<(), String> {
             _ => {}
         }
     }
+    // a `true` flag in the model accounts for the sign letter in front of a number (37H "N")
+    fn count_true(v: &Value) -> usize {
+        match v {
+            Value::Bool(true) => 1,
+            Value::Object(m) => m.values().map(count_true).sum(),
+            Value::Array(a) => a.iter().map(count_true).sum(),
+            _ => 0,
+        }
+    }
+    for _ in 0..count_true(json) {
+        if let Some(i) = (0..text.len().saturating_sub(1)).find(|&i| text[i] == 'N' && !used[i] && text[i + 1].is_ascii_digit()) {
+            used[i] = true;
+        }
+    }
     // line numbers of numbered name-and-address lines ("1/NAME") may be implied by line order in
     // the model: a digit at a line start followed by '/' is representation, not a component value
     for i in 0..text.len() {
         let at_line_start = i == 0 || text[i - 1] == '\n';
-        if at_line_start && text[i].is_ascii_digit() && i + 1 < text.len() && text[i + 1] == '/' && text.contains(&'\n') {
+        if at_line_start && text[i].is_ascii_digit() && i + 1 < text.len() && text[i + 1] == '/' {
             used[i] = true;
         }
     }
@@ -272,6 +287,10 @@ pub fn judge(_cfg: &Config, case: &Case, l: &mut Local) {
 /// Build the written fields of one shape; None if an exemplar cannot be canonicalised (reported separately)
 pub fn build(l: &Layout, g: &mut Gen, local: &mut Local, shape: &str) -> Option<Case> {
     let gf: Vec<GenField> = g.message(l);
+    build_from(l, gf, local, shape)
+}
+
+pub fn build_from(l: &Layout, gf: Vec<GenField>, local: &mut Local, shape: &str) -> Option<Case> {
     let mut fields = Vec::new();
     for f in gf {
         match spec::canonical(&f.tag, &f.content) {
@@ -327,8 +346,50 @@ pub fn run(cfg: &Config) -> i32 {
             }
         }
     }
-    let n = work.len() as u64;
+    // spec-conforming substitution: in the maximal message of each type, every field in turn gets
+    // every structural candidate of its documented format that the reference acceptor classifies as
+    // conforming (minimal / maximal instance, each component at its minimum and maximum length, the
+    // same with the optional rest absent); the message stays well-formed, so it must be accepted
+    let specs = crate::spec::fieldfmt::specs();
+    let mut subst: Vec<(usize, usize, String, String)> = Vec::new(); // (layout, field index, content, class)
+    for (li, l) in layouts.iter().enumerate() {
+        let mut r0 = Rng::new(0, &format!("c03-subst:{}", l.mt), 0);
+        let mut g0 = Gen { r: &mut r0, counter: 7, mt: l.mt, opt: GenOptions { optional_per_mille: 500, max_repeat: 2, max_seq: 2, maximal: true, minimal: false }, force_option: None, force_include: None };
+        let gf = g0.message(l);
+        let mut seen_tags = std::collections::BTreeSet::new();
+        for (fi, f) in gf.iter().enumerate() {
+            if !seen_tags.insert(f.tag.clone()) {
+                continue;
+            }
+            let Some(spec) = specs.iter().find(|s| s.ty == format!("Field{}", f.tag) || s.ty == format!("Field{}NoOption", f.tag)) else { continue };
+            let mut rr = Rng::new(0, "c03-subst-cand", fi as u64);
+            for c in crate::spec::fieldfmt::candidates(spec, 1, &mut rr, 0) {
+                let structural = matches!(c.class.as_str(), "minimal" | "maximal") || c.class.starts_with("len=min") || c.class.starts_with("len=max,") || c.class == "len=max";
+                if !structural || c.content.contains('\r') || c.content.lines().any(|x| x.starts_with(':') || x.starts_with('-')) {
+                    continue;
+                }
+                if crate::spec::fieldfmt::classify(spec, &c.content) == crate::spec::fieldfmt::Verdict::Accept {
+                    subst.push((li, fi, c.content, c.class));
+                }
+            }
+        }
+    }
+    let n0 = work.len() as u64;
+    let n = n0 + subst.len() as u64;
     let total = par_for(cfg, n, |i, local| {
+        if i >= n0 {
+            let (li, fi, content, class) = &subst[(i - n0) as usize];
+            let l = &layouts[*li];
+            let mut r0 = Rng::new(0, &format!("c03-subst:{}", l.mt), 0);
+            let mut g0 = Gen { r: &mut r0, counter: 7, mt: l.mt, opt: GenOptions { optional_per_mille: 500, max_repeat: 2, max_seq: 2, maximal: true, minimal: false }, force_option: None, force_include: None };
+            let mut gf = g0.message(l);
+            gf[*fi].content = content.clone();
+            let shape = format!("spec-substitution:{}:{}", gf[*fi].tag, class.split(',').next().unwrap_or(""));
+            if let Some(case) = build_from(l, gf, local, &shape) {
+                judge(cfg, &case, local);
+            }
+            return;
+        }
         let (li, shape, vi) = &work[i as usize];
         let l = &layouts[*li];
         let mut r = Rng::new(cfg.seed, &format!("c03:{}:{shape}", l.mt), *vi);
